@@ -129,9 +129,9 @@ func lookupChecksV1() []common.Failure {
 
 func init() {
 	for _, p := range []string{"C01", "C06", "C20"} {
-		props[p] = common.UniverseProperty(p, common.UniImpl{Load: loadV1, LookupChecks: lookupChecksV1, LoadHistory: loadHistoryV1})
+		props[p] = common.UniverseProperty(p, common.UniImpl{Load: loadV1, LookupChecks: lookupChecksV1, LoadHistory: loadHistoryV1, LoadHistoryLookups: loadHistoryV1L})
 	}
-	props["C11"] = common.LoadingProperty(common.UniImpl{Load: loadV1, LoadHistory: loadHistoryV1})
+	props["C11"] = common.LoadingProperty(common.UniImpl{Load: loadV1, LoadHistory: loadHistoryV1, LoadHistoryLookups: loadHistoryV1L})
 }
 
 // ---- C11: loading histories through the real v1 Builder (GOPATH mode on a scratch tree) ----
@@ -161,6 +161,11 @@ func writeGopath(prog *common.Program) (string, error) {
 var gopathMu sync.Mutex
 
 func loadHistoryV1(prog *common.Program, initial []string, steps [][]string) (*common.USnap, bool, []string, error) {
+	return loadHistoryV1L(prog, initial, steps, nil)
+}
+
+// … with hand lookups: before incremental step i every name in lookups[i] is looked up with Universe.Type
+func loadHistoryV1L(prog *common.Program, initial []string, steps [][]string, lookups [][][2]string) (*common.USnap, bool, []string, error) {
 	gopathMu.Lock()
 	defer gopathMu.Unlock()
 	root, err := writeGopath(prog)
@@ -184,7 +189,12 @@ func loadHistoryV1(prog *common.Program, initial []string, steps [][]string) (*c
 		return nil, false, nil, err
 	}
 	stable := true
-	for _, step := range steps {
+	for si, step := range steps {
+		if si < len(lookups) {
+			for _, n := range lookups[si] {
+				u.Type(types.Name{Package: n[0], Name: n[1]})
+			}
+		}
 		// objects obtained before the incremental load
 		before := map[types.Name]*types.Type{}
 		kinds := map[*types.Type]types.Kind{}
